@@ -20,6 +20,10 @@ pub struct PairRun {
     pub h: Hist,
     pub sides: Vec<Side>,
     pub prop: String,
+    /// upper bound on the random steps each operand makes per round
+    pub evolve_max: usize,
+    /// Miri mode: only drive the operations (hold-all-then-write); the functional oracles run natively
+    pub fast: bool,
 }
 
 fn load(h: &mut Hist, s: &mut Side) {
@@ -67,7 +71,7 @@ impl PairRun {
             Side { slot: Slot::Set(0), m: Model::new(), canonical: true, is_set: true },
             Side { slot: Slot::Set(1), m: Model::new(), canonical: true, is_set: true },
         ];
-        PairRun { h, sides, prop: prop.to_string() }
+        PairRun { h, sides, prop: prop.to_string(), evolve_max: 25, fast: false }
     }
 
     /// evolve one operand by `n` random steps; false if the history had to stop
@@ -120,6 +124,48 @@ impl PairRun {
     #[allow(clippy::too_many_arguments)]
     pub fn check_pair(&mut self, ev: &mut Ev, op: PairOp, ia: usize, pa: &ViewProg, ib: usize, pb: &ViewProg, selfp: Option<&SelfPair>) -> bool {
         let prop = self.prop.clone();
+        if self.fast {
+            let (sa, sb) = (self.sides[ia].slot, self.sides[ib].slot);
+            let write = if op.is_mut() {
+                let pat = self.h.g.pattern();
+                Some((self.h.g.tn(4 * (self.sides[ia].m.len() + self.sides[ib].m.len() + 2)), pat))
+            } else {
+                None
+            };
+            beat(&format!("check/pair(fast) {:?}", op));
+            let obs = {
+                let w = &mut self.h.w;
+                guarded(|| match selfp {
+                    Some(sp) => w.self_pair(op, sa, sp, write),
+                    None => w.pair(op, (sa, pa), (sb, pb), write),
+                })
+            };
+            match obs {
+                Ok(o) => {
+                    if o.a.is_some() && o.b.is_some() {
+                        ev.evaluations += 1;
+                        ev.count(&format!("pairs/op/{:?}", op), 1);
+                        ev.count("mut/refs_held_simultaneously", (o.addrs_l.len() + o.addrs_r.len()) as u64);
+                        ev.hash(mix(self.sides[ia].m.hash() ^ self.sides[ib].m.hash().rotate_left(17) ^ op as u64));
+                    }
+                    for (k, t) in &o.written_l {
+                        self.sides[ia].m.set_value(EP::new(k.0, k.1), *t);
+                    }
+                    for (k, t) in &o.written_r {
+                        self.sides[ib].m.set_value(EP::new(k.0, k.1), *t);
+                    }
+                    return true;
+                }
+                Err(p) => {
+                    if p.harness() {
+                        ev.inconclusive(&format!("harness error: {} at {}", p.msg, p.site()));
+                    } else {
+                        self.viol(ev, &format!("panic/{:?}/{}", op, p.sig()), format!("{:?} panicked: {} at {}", op, p.msg, p.site()), json!({"op": format!("{:?}", op)}));
+                    }
+                    return false;
+                }
+            }
+        }
         let (sta, shape_a) = match self.operand(ev, ia, pa) {
             Some(x) => x,
             None => return true,
@@ -138,7 +184,11 @@ impl PairRun {
             None
         };
         // C13: the read-only twin first (same operands), to be mirrored by the mutable variant
-        let twin = if op.is_mut() && prop == "C13" {
+        let mirror_owner = prop == "C13"
+            || (prop == "C05" && op == PairOp::UnionMut)
+            || (prop == "C06" && op == PairOp::IntersectionMut)
+            || (prop == "C07" && matches!(op, PairOp::DifferenceMut | PairOp::CoveringDifferenceMut));
+        let twin = if op.is_mut() && mirror_owner {
             let w = &mut self.h.w;
             guarded(|| match selfp {
                 Some(sp) => w.self_pair(op.base(), sa, sp, None),
@@ -148,6 +198,7 @@ impl PairRun {
         } else {
             None
         };
+        beat(&format!("check/pair {:?} a={:?} b={:?}", op, pa, pb));
         let obs = {
             let w = &mut self.h.w;
             guarded(|| match selfp {
@@ -291,11 +342,13 @@ impl PairRun {
                     }
                     let same = match (got, want) {
                         (None, None) => true,
-                        (Some(g), Some(w)) => g.0.key() == w.0.key() && (unit || g.1 == w.1),
+                        // "the longest prefix stored in that other view": the stored representation, bit for bit
+                        (Some(g), Some(w)) => g.0 == w.0 && (unit || g.1 == w.1),
                         _ => false,
                     };
                     if !same {
                         let kind = match (got, want) {
+                            (Some(g), Some(w)) if g.0.key() == w.0.key() && (unit || g.1 == w.1) => "not-the-stored-representation",
                             (Some(g), _) if !g.0.covers(k) => "does-not-cover",
                             (Some(_), None) => "spurious",
                             (None, Some(_)) => "missing",
@@ -393,7 +446,7 @@ impl PairRun {
     pub fn round(&mut self, ev: &mut Ev, pairs: usize) -> bool {
         let prop = self.prop.clone();
         for i in 0..4 {
-            let n = 3 + self.h.g.rng.below(25);
+            let n = (3 + self.h.g.rng.below(25)).min(self.evolve_max.max(1));
             if !self.evolve(ev, i, n) {
                 return false;
             }
